@@ -102,6 +102,27 @@ def validate(ctx, trace, ntraces, what):
     return False
 
 
+def hammer(ctx, quick):
+    # 3b. black-box search for the UNREGISTER check-then-act window (needs no hooks): a connection unregisters an ephemeral
+    #     topic it alone holds while another registers it; once both are acknowledged the registrant must be listed
+    hrep = os.path.join(ctx.scratch, "hammer.json")
+    rc, out, err = ctx.run_harness(["c14-hammer", "--report", hrep, "--wall", "10s" if quick else "60s",
+                                    "--iters", 20000 if quick else 200000], timeout=1200, name="lookupd")
+    if not os.path.exists(hrep):
+        raise Inconclusive("c14-hammer: rc=%s\n%s%s" % (rc, out[-2000:], err[-2000:]))
+    H = json.load(open(hrep))
+    if H.get("errors"):
+        raise Inconclusive("c14-hammer: %s" % H["errors"][:3])
+    ctx.cov["evaluations"] += H["iterations"]
+    ctx.notes["unregister_register_hammer"] = {"iterations": H["iterations"], "registrations_lost": H["lost"]}
+    if H["lost"]:
+        ctx.sample({"lost_registration": H["first_lost"][0]})
+        ctx.violation("concurrent UNREGISTER / REGISTER of one ephemeral topic by two connections: in %d of %d trials the REGISTER was "
+                      "acknowledged with OK and, with both commands finished, the registrant is missing from /lookup (no order of the "
+                      "two commands predicts that): %s" % (H["lost"], H["iterations"], H["first_lost"][0]),
+                      ctx.save_replay("hammer", H), key=RACE_KEY)
+
+
 def run(ctx):
     quick = ctx.quick
     if ctx.replay:
@@ -109,6 +130,12 @@ def run(ctx):
     # 1. the registry model and the statement's clauses, exhaustively (untimed: 2 producers x 2 topics x 2 channels; timed: clock 0..4)
     ctx.model_check("Lookupd", "Lookupd_mc.cfg", timeout=900)
     ctx.model_check("Lookupd", "Lookupd_timed.cfg", timeout=900)
+    # UNREGISTER at the granularity of its two critical sections: as intended (passes) and as implemented (a TLC counterexample
+    # is only a lead: the gated replay / hammer below decide whether the real code does it)
+    ctx.model_check("LookupdRace", "LookupdRace_fixed.cfg", timeout=900)
+    r = ctx.model_check("LookupdRace", "LookupdRace_asis.cfg", expect_ok=False, timeout=900)
+    ctx.notes["lead_unregister_window"] = ("LookupdRace_asis.cfg (RemoveRegistration unconditional after left == 0): TLC reports %s"
+                                           % (r.violated or "no violation"))
     if not quick:
         ctx.model_check("Lookupd", "Lookupd_shared.cfg", timeout=900)
         ctx.model_check("Lookupd", "Lookupd_timed5.cfg", timeout=900)
@@ -133,6 +160,8 @@ def run(ctx):
            ["--timed", "--tick-ms", 200, "--inactive-k", 2, "--tomb-k", 1, "--workers", 64, "--max-walk", 60,
             "--wall", "25s" if quick else "240s"])
     os.unlink(g)
+
+    hammer(ctx, quick)
 
     # 4. binding B: concurrent histories, validated by TLC (needs the registry hooks)
     trace = os.path.join(ctx.scratch, "conc.ndjson")
@@ -219,4 +248,9 @@ def run_replay(ctx):
             cleaned.append(x)
         replay(ctx, g, doc["label"], doc["cfg"], cleaned + ["--history", path, "--workers", 1])
         return
+    if "iterations" in doc and "lost" in doc:
+        hammer(ctx, True)
+        return
+    if "race_observed" in doc:
+        raise Inconclusive("replay the recorded trace instead: " + path.replace(".json", ".ndjson"))
     raise Inconclusive("do not know how to replay " + path)
